@@ -377,6 +377,7 @@ def check_guarded_fields(ctx, rid, cls, only_fields=None, doc=None, only_functio
                 continue
             ctx.ob(rid, ok, site, what, detail, fn=top.label, inst=inst)
             n += 1
+    n += _co_update(ctx, rid, cls, tab)
     # inferred fields: the intersection of the locks held over all accesses must not be empty
     for name, accs in locksets.items():
         writes = [a for a in accs if a[2]]
@@ -455,6 +456,63 @@ def _callers_hold(ctx, cls, helper, g, m):
                 if not (pos is not None and la.holds(pos, g, m)):
                     return False
     return found
+
+
+SIZE_CHANGING = ("emplace", "emplace_back", "emplace_front", "emplace_hint", "try_emplace", "insert", "insert_or_assign", "erase", "extract",
+                 "push_back", "push_front", "pop_back", "pop_front", "clear", "operator[]", "resize", "merge", "swap", "assign")
+
+
+def _co_update(ctx, rid, cls, tab):
+    """a member added later that is written in (at least two) operations which all change the number of entries of one
+    guarded container, and nowhere else, is bookkeeping ABOUT that container (a size, a version, a dirty flag): then every
+    operation that changes the container's size has to maintain it.  The evidence (who writes it today) is in the report."""
+    fb, eng = ctx.fb, ctx.eng
+    new = [k for k, e in tab.items() if e.get("inferred") and e["kind"] in ("atomic", "lockset")]
+    if not new:
+        return 0
+    containers = [k for k, e in tab.items() if e.get("kind") == "guarded" and not e.get("inferred")]
+    writers = {k: {} for k in new}         # field -> {function name: site}
+    changers = {c: {} for c in containers}
+    for f, top in class_functions(fb, cls):
+        if top.kind in ("ctor", "dtor"):
+            continue
+        for st in field_refs(f, cls):
+            nm = st["m"]["name"]
+            if nm in writers:
+                acc, user = effective_access(eng, f, st)
+                is_load = acc in READ_KINDS or _atomic_call_is_load(f, user)
+                if not is_load:
+                    writers[nm].setdefault(top.name, f.loc(st))
+            if nm in changers:
+                par = f.par(st)
+                while par is not None and (par["k"] in WRAPPERS or (par["k"] == "MemberExpr" and not par["m"].get("is_field"))):
+                    par = f.par(par)
+                c = (par or {}).get("callee") or {}
+                if par is not None and par["k"] in CALLS and (c.get("name") in SIZE_CHANGING or par.get("op") == "[]"):
+                    changers[nm].setdefault(top.name, (f.loc(par), top, f.qname))
+    n = 0
+    for fld, ws in writers.items():
+        if len(ws) < 2:
+            continue
+        fits = [(len(set(ch) - set(ws)), c) for c, ch in changers.items() if set(ws) <= set(ch)]
+        if not fits:
+            continue
+        best = min(fits)
+        if sum(1 for x in fits if x[0] == best[0]) > 1:
+            ctx.note("new member %s is written together with size changes of several containers (%s): not attributed to one"
+                     % (fld, ", ".join(c for _n, c in fits)))
+            continue
+        for c, ch in changers.items():
+            if c != best[1]:
+                continue
+            for fn, (site, top, inst) in sorted(ch.items()):
+                ok = fn in ws
+                ctx.ob(rid, ok, site, "%s is kept in step with %s by every operation that changes the number of its entries" % (fld, c),
+                       "" if ok else "%s changes the size of %s but does not update %s, which %s do: the bookkeeping drifts away from "
+                       "the container (counts entries that are not there, or reports 'empty' while objects are stored)"
+                       % (fn, c, fld, " and ".join(sorted(ws))), fn=top.label, inst=inst)
+                n += 1
+    return n
 
 
 def _atomic_call_is_load(f, user):
